@@ -724,7 +724,10 @@ fn run_p256_trunc(inp: &[u8]) -> Result<(), String> {
     }
 
     // a valid signature (r, s) for hash hv under a public key pk
-    let (pk, sig): (PublicKey, Vec<u8>) = if variant == 4 {
+    // variants 3 / 5 (invalid prefix) use a genuine key pair: with a crafted key (R = k*G for a known k)
+    // an altered hash can have a valid completion (e.g. k = 1: (h + d, s + d) is valid for d = 2^249)
+    let genuine = matches!(variant, 3 | 4 | 5);
+    let (pk, sig): (PublicKey, Vec<u8>) = if genuine {
         let sk = PrivateKey::from_seed(kb);
         (sk.to_public_key(), sk.sign_hash(hv, if par & 1 == 0 { &[] } else { sb }).to_vec())
     } else {
@@ -746,7 +749,7 @@ fn run_p256_trunc(inp: &[u8]) -> Result<(), String> {
         (pk, sig)
     };
     if !pk.verify_hash(&sig, hv) {
-        return if variant == 4 { Err("own signature rejected by the ordinary verifier".into()) } else { Ok(()) };
+        return if genuine { Err("own signature rejected by the ordinary verifier".into()) } else { Ok(()) };
     }
     let want_prep = p256_prepare_ref(&sig);
     let prep = PrivateKey::prepare_truncate(&sig).map(|x| x.to_vec());
